@@ -428,8 +428,24 @@ fn free_dur(calendar_prob: f64) -> BoxedStrategy<Dur> {
 }
 
 pub fn pair_case() -> BoxedStrategy<PairCase> {
-    (free_dur(0.03), free_dur(0.03), 0u8..6)
+    (free_dur(0.03), free_dur(0.03), 0u8..8)
         .prop_map(|(a, b, k)| match k {
+            // the sum (or difference) is exactly the last representable total, +-(2^53 s - 1 ns), or 1-2 ns beyond it,
+            // in either sign: b = limit - a
+            6 | 7 => {
+                let lim: i128 = (1i128 << 53) * 1_000_000_000 - 1;
+                let ta = a.time_ns_with_days();
+                let sign: i128 = if ta < 0 { -1 } else { 1 };
+                let over: i128 = [0, 0, 0, 1, 2][(ta.unsigned_abs() % 5) as usize];
+                let rest = sign * (lim + over) - ta;
+                let b2 = balance_time(rest, if k == 6 { U::Second } else { U::Hour });
+                let exact = b2.valid() && b2.to_f64s().iter().zip(b2.f.iter()).all(|(x, y)| *x as i128 == *y);
+                if a.f[..3].iter().all(|v| *v == 0) && rest.signum() == sign && exact {
+                    PairCase { a, b: b2 }
+                } else {
+                    PairCase { a, b }
+                }
+            }
             // equal totals expressed differently
             0 => {
                 let t = a.time_ns_with_days();
